@@ -1,11 +1,11 @@
 #!/bin/bash
-# usage: bin/trymut.sh '<sed-expr>' <file-under-/repo> <check> [extra vcheck args]   -- apply, run quick check, revert
+# usage: bin/trymut.sh '<sed-expr>' <file-under-/repo> "<checks>" [extra vcheck args]   -- apply, run quick checks, revert
 set -u
-expr="$1"; file="$2"; chk="$3"; shift 3
+expr="$1"; file="$2"; chks="$3"; shift 3
 cd /repo && git diff --quiet || { echo "/repo dirty"; exit 9; }
 sed -i "$expr" "/repo/$file"
-if git diff --quiet; then echo "MUTANT DID NOT APPLY"; exit 8; fi
+if git diff --quiet; then echo "MUTANT DID NOT APPLY: $expr"; exit 8; fi
 git diff | grep '^[+-]' | grep -v '^+++\|^---'
-cd /verif && bin/vcheck "$chk" --tier quick "$@" 2>&1 | tail -4
-echo "exit=${PIPESTATUS[0]}"
+cd /verif
+for chk in $chks; do bin/vcheck "$chk" --tier quick "$@" 2>&1 | grep -v "^INCONCLUSIVE\|^KNOWN" | cut -c1-330 | tail -3; done
 git -C /repo checkout -- .
